@@ -40,8 +40,7 @@ class C16(Check):
             'several live handlers and managers: constructions with device_params / nc_params / ignore_errors variations, mutation of every '
             'list and dict the getters return, Manager construction, NCElement.xpath with caller namespaces - after each step the observations '
             'through every watched (old) handler AND through a fresh handler of each watched profile must be unchanged; (c) the model\'s '
-            'Sequences of SSH connects to one host:port (names requested from the server), caller argument objects shared between constructions, introspection (dir / repr / hasattr) steps, additional capabilities that look like base URIs. '
-            'resolve / subsystem rule compared with Manager.__getattr__ / the nexus handler. Non-trivial = history of >= 3 operations or a profile row.')
+            'resolve / subsystem rule compared with Manager.__getattr__ / the nexus handler. Sequences of SSH connects to one host:port (names requested from the server), caller argument objects shared between constructions, introspection (dir / repr / hasattr) steps, additional capabilities that look like base URIs. Non-trivial = history of >= 3 operations or a profile row.')
     TRUST = ['the catalogue of public calls probed for shared-state writes (harness/gen/isolation.py)']
 
     def gen_tables(self, log):
